@@ -90,6 +90,8 @@ func main() {
 	)
 	flag.Var(&fnNames, "fn", "harness function name (repeatable)")
 	flag.Var(&params, "param", "harness parameter name=value (repeatable)")
+	var ufs strList
+	flag.Var(&ufs, "uf", "summarise this function (full name) as an uninterpreted function (repeatable)")
 	flag.Parse()
 	if *pkgPat == "" || len(fnNames) == 0 {
 		fmt.Fprintln(os.Stderr, "usage: gosym -pkg ./modbus -harness-dir DIR -fn HarnessX [-fn ...]")
@@ -174,6 +176,10 @@ func main() {
 		c.Unwind = *unwind
 		c.MaxDepth = *depth
 		c.Params = pm
+		c.UFs = map[string]bool{}
+		for _, u := range ufs {
+			c.UFs[u] = true
+		}
 		c.PanicIsViolation = !*noPanic
 		c.UnwindIsViolation = *unwViol
 		c.BlockedIsViolation = *blkViol
